@@ -25,7 +25,8 @@ CONSTANTS Srcs,          \* requesting peers
           RegVars, UpdVars, PutVars,   \* request forms (see *Stage below)
           Adv,           \* sizes of clock steps
           MaxTime, MaxOps,
-          Hyp
+          Hyp,
+          KeepHist       \* record the request history (replay) or not (plain model check)
 
 VARIABLES now,
           byKey,     \* CommonRD._by_key : <<ep, d>> -> loc
@@ -69,8 +70,8 @@ ClsOf(stage) == IF stage = "ok" THEN 2 ELSE IF stage = "crash" THEN 5 ELSE 4
 
 (* -- what the lookups return (get_endpoints = _by_key.values()) ----------- *)
 Listed(bk) == {bk[k] : k \in DOMAIN bk}
-ImplEps(bk, bp) == {EpRec(l, bp[l]) : l \in Listed(bk)}
-ImplRes(bk, bp) == UNION {ResRecs(bp[l]) : l \in Listed(bk)}
+ImplEps(bk, bp) == {[loc |-> l, ep |-> bp[l].ep, d |-> bp[l].d, base |-> bp[l].base, x |-> bp[l].x] : l \in Listed(bk)}
+ImplRes(bk, bp) == UNION {ResRecs(<<bp[l].ep, bp[l].d>>, bp[l]) : l \in Listed(bk)}
 LkEp(bk, bp, t)  == [E0 EXCEPT !.k = "lkep", !.t = t, !.cls = 2, !.eps = ImplEps(bk, bp),
                                !.n = Cardinality(ImplEps(bk, bp))]
 LkRes(bk, bp, t) == [E0 EXCEPT !.k = "lkres", !.t = t, !.cls = 2, !.res = ImplRes(bk, bp),
@@ -83,7 +84,7 @@ Commit(bk, bp, t, evs, h) ==
   /\ byKey' = bk /\ byPath' = bp
   /\ LET es == evs \o <<LkEp(bk, bp, t), LkRes(bk, bp, t)>>
      IN obs' = ObsFold(obs, es)
-  /\ hist' = hist \o h
+  /\ hist' = IF KeepHist THEN hist \o h ELSE hist
 
 Init == /\ now = 0 /\ byKey = << >> /\ byPath = << >> /\ budget = MaxOps
         /\ obs = ObsInit /\ hist = << >>
@@ -213,8 +214,9 @@ IndexesAgree == /\ \A k \in DOMAIN byKey : byKey[k] \in DOMAIN byPath
                                             /\ byKey[<<byPath[l].ep, byPath[l].d>>] = l
 \* the bookkeeping of successful writes and the implementation state tell the same story
 BookAgrees == obs.bad = {} =>
-                 /\ LiveLocs(obs, now) = DOMAIN byPath
-                 /\ \A l \in DOMAIN byPath : obs.book[l].w + obs.book[l].lt + Grace = byPath[l].due
+                 /\ LiveKeys(obs, now) = DOMAIN byKey
+                 /\ \A q \in DOMAIN byKey : /\ obs.book[q].loc = byKey[q]
+                                              /\ obs.book[q].w + obs.book[q].lt + Grace = byPath[byKey[q]].due
 
 \* reporter used with an order hypothesis: a terminal state in which a clause is false
 ReportBad == obs.bad # {} => PrintT(<<"BAD", obs.bad, obs.blame, hist>>)
